@@ -1,19 +1,65 @@
 """C08 — reference lists keep the textual order of the references.
 
-Implementation side: lists of references (`+=`, `*=` with separator, repeated
-plain assignment) resolved by a schedule-driven scope provider: reference number
-k of a list is postponed on its first sched[k] calls.  The observed resolution
-sequence is replayed through the Lean model (`Resolve.listAfter`).
+Implementation side: a *history* of model loads with ONE metamodel.  Every load
+is a model text (1..3 files, ImportURI loading) whose reference lists — `+=`,
+`*=` with separator, repeated plain assignment, two list attributes on one
+object (one after the other or interleaved), a list on the root object, a list
+rule without leading keyword, lists nested in containers — are resolved by a
+schedule-driven scope provider: a reference is postponed on its first `wait`
+calls.  The layout of the text (lists before / after / between the items they
+refer to, leading white-space / comment or none at all so that a reference may
+sit at offset 0, token gaps) is part of the case, so are the metamodel
+configuration (provider registration key, user classes, tool support,
+memoization) and what happens between the loads (model kept alive or dropped
+and collected, a load that fails).  The observed resolution sequence of every
+load is replayed through the Lean model (`RefList.history`, Drivers/RefList.lean).
+
+Case format (v2):
+  {"v": 2,
+   "mm": {"root": "none"|"head"|"tail", "prov": "any"|"exact"|"attr"|"cls",
+          "user": [rule names with a user class], "pool": bool (user classes recycle the instances of dropped
+          models: identities recur), "tools": bool, "memo": bool},
+   "loads": [{"drop": bool, "lead": str, "gap": str,
+              "files": [{"imports": [file index..], "root": LIST?, "elems": [ELEM..]}..]}..]}
+  ELEM = {"k": "item", "n": K}                                  defines item iK (K unique in the load)
+       | {"k": "plus"|"star"|"multi"|"bare"|"alt", "refs": [[A, K]..], "sched": [W..]}
+       | {"k": "box", "e": [ELEM..]}                            (no items inside)
+  LIST = {"refs": [[2, K]..], "sched": [W..]}                    the root object's list `order`
+  A = 0 (`targets`) | 1 (`more`) | 2 (`order`), K = item referred to (-1: an undefined name),
+  W = number of provider calls answered with Postponed (-1: always postponed).
+The old format {"nitems", "lists": [{"kind", "refs", "more", "sched"}]} is still read (one load).
 """
+import gc
+import os
+import re
+import shutil
+import tempfile
+
 from harness.core import Check, use_repo
 
-GRAMMAR = r"""
-Model: items*=Item lists*=RefList;
+ATTRS = ["targets", "more", "order"]
+CLASS_OF = {"plus": "Plus", "star": "Star", "multi": "Multi", "bare": "Bare", "alt": "Alt", "box": "Box", "item": "Item"}
+USER_ABLE = ["Plus", "Star", "Multi", "Bare", "Alt", "Box", "Model", "Item"]
+LEADS = ["", " ", "\n", "// c\n", "/* é\U0001F600 */", "\n\n  "]
+GAPS = [" ", "", "\n", "  ", " /*c*/ ", "\t"]
+
+
+def grammar(mm):
+    head = "order*=[Item][','] ';'" if mm["root"] == "head" else ""
+    tail = "'order' order*=[Item]" if mm["root"] == "tail" else ""
+    return rf"""
+Model: imports*=Import {head} elems*=Elem {tail};
+Import: 'import' importURI=STRING;
+Elem: Item | ListElem;
+ListElem: Plus | Star | Multi | Alt | Box | Bare;
 Item: 'item' name=ID;
-RefList: Plus | Star | Multi;
 Plus: 'plus' name=ID ':' targets+=[Item] ('&' more+=[Item][','])? ';';
 Star: 'star' name=ID ':' targets*=[Item][','] ';';
 Multi: 'multi' name=ID ':' targets=[Item] targets=[Item] (targets=[Item])? ';';
+Alt: 'alt' name=ID ':' ('+' targets+=[Item] | '!' more+=[Item])* ';';
+Box: 'box' name=ID '{{' elems*=ListElem '}}';
+Bare: targets+=[Item][','] ('&' more+=[Item][','])? ';';
+Comment: /\/\/.*?$|\/\*(.|\n)*?\*\//;
 """
 
 
@@ -21,179 +67,638 @@ class NonTermination(Exception):
     pass
 
 
+class UnknownPosition(Exception):
+    pass
+
+
+# --------------------------------------------------------------------------
+# case structure
+# --------------------------------------------------------------------------
+def norm(case):
+    """old single-load format -> v2"""
+    if case.get("v") == 2:
+        return case
+    elems = [{"k": "item", "n": k} for k in range(case["nitems"])]
+    for l in case["lists"]:
+        kind = "plus" if l["kind"] == "plus2" else l["kind"]
+        refs = [[0, t] for t in l["refs"]] + [[1, t] for t in l.get("more", [])]
+        elems.append({"k": kind, "refs": refs, "sched": list(l["sched"])})
+    return {"v": 2, "mm": {"root": "none", "prov": "any", "user": [], "pool": False, "tools": False, "memo": False},
+            "loads": [{"drop": False, "lead": "", "gap": " ", "files": [{"imports": [], "elems": elems}]}]}
+
+
+def valid_elem(e):
+    k, refs = e["k"], e.get("refs", [])
+    a = [r[0] for r in refs]
+    if k == "item":
+        return True
+    if k == "box":
+        return all(c["k"] != "item" and valid_elem(c) for c in e["e"])
+    if len(e["sched"]) != len(refs) or any(x not in (0, 1) for x in a):
+        return False
+    if k in ("plus", "bare"):
+        return a.count(0) >= 1 and a == sorted(a)
+    if k == "star":
+        return a.count(1) == 0
+    if k == "multi":
+        return a.count(1) == 0 and 2 <= len(a) <= 3
+    return k == "alt"
+
+
+def lists_of_file(f, mm):
+    """list-holding objects of a file: [(obj key, element or root LIST)], root = key 0, the others in pre-order"""
+    out = []
+    if mm["root"] != "none":
+        out.append((0, f.get("root") or {"refs": [], "sched": []}))
+    n = [0]
+
+    def go(es):
+        for e in es:
+            if e["k"] == "box":
+                go(e["e"])
+            elif e["k"] != "item":
+                n[0] += 1
+                out.append((n[0], e))
+
+    go(f["elems"])
+    return out
+
+
+def expected_lists(f, mm):
+    """{(obj key, attr index): [K..]} for every list attribute of the file"""
+    exp = {}
+    for key, l in lists_of_file(f, mm):
+        kinds = {2} if key == 0 else ({0, 1} if l["k"] in ("plus", "bare", "alt") else {0})
+        for a in kinds:
+            exp[(key, a)] = [t for (x, t) in l["refs"] if x == a]
+    return exp
+
+
+def load_fails(load, mm):
+    for f in load["files"]:
+        for _, l in lists_of_file(f, mm):
+            if any(t < 0 for _, t in l["refs"]) or any(w < 0 for w in l["sched"]):
+                return True
+    return False
+
+
+def rank_waits(load, mm):
+    """a round in which nothing resolves ends the resolver loop: make the waits of a load contiguous 0..m"""
+    ls = [l for f in load["files"] for _, l in lists_of_file(f, mm)]
+    vals = sorted({w for l in ls for w in l["sched"] if w >= 0})
+    rank = {w: i for i, w in enumerate(vals)}
+    for l in ls:
+        l["sched"] = [rank[w] if w >= 0 else -1 for w in l["sched"]]
+
+
+def render_file(fi, f, load, mm):
+    """text of one model file and its references:
+    [{"file", "obj", "attr", "j", "pos", "tgt", "wait"}] in textual order"""
+    toks = []  # (text, ref record or None)
+    for j in f["imports"]:
+        toks += [("import", None), (f'"f{j}.m"', None)]
+    counter = [0]
+    names = [0]
+
+    def ref(key, a, j, t, w):
+        toks.append((f"i{t}" if t >= 0 else "nx", {"file": fi, "obj": key, "attr": a, "j": j, "tgt": t, "wait": w}))
+
+    def emit_root(l):
+        for j, ((a, t), w) in enumerate(zip(l["refs"], l["sched"])):
+            if j and mm["root"] == "head":
+                toks.append((",", None))
+            ref(0, 2, j, t, w)
+
+    def emit(e):
+        k = e["k"]
+        if k == "item":
+            toks.extend([("item", None), (f"i{e['n']}", None)])
+            return
+        names[0] += 1
+        if k == "box":
+            toks.extend([("box", None), (f"B{names[0]}", None), ("{", None)])
+            for c in e["e"]:
+                emit(c)
+            toks.append(("}", None))
+            return
+        counter[0] += 1
+        key = counter[0]
+        if k != "bare":
+            toks.extend([(k, None), (f"L{names[0]}", None), (":", None)])
+        idx = [0, 0]
+        prev = None
+        for (a, t), w in zip(e["refs"], e["sched"]):
+            if k == "alt":
+                if a != prev:
+                    toks.append(("+" if a == 0 else "!", None))
+            elif a == 1 and prev != 1:
+                toks.append(("&", None))
+            elif idx[a] and (k in ("star", "bare") or a == 1):
+                toks.append((",", None))
+            ref(key, a, idx[a], t, w)
+            idx[a] += 1
+            prev = a
+        toks.append((";", None))
+
+    if mm["root"] == "head":
+        emit_root(f.get("root") or {"refs": [], "sched": []})
+        toks.append((";", None))
+    for e in f["elems"]:
+        emit(e)
+    if mm["root"] == "tail":
+        toks.append(("order", None))
+        emit_root(f.get("root") or {"refs": [], "sched": []})
+
+    def wordy(c):
+        return c.isalnum() or c in '_"'
+
+    text = load.get("lead", "")
+    refs = []
+    prev = None
+    for tok, rec in toks:
+        if prev is not None:
+            gap = load.get("gap", " ")
+            if gap == "" and wordy(prev[-1]) and wordy(tok[0]):
+                gap = " "
+            text += gap
+        if rec is not None:
+            refs.append(dict(rec, pos=len(text)))
+        text += tok
+        prev = tok
+    return text + "\n", refs
+
+
+def make_user_class(name, pooled):
+    """user class for rule `name`; a pooled class recycles the instances the harness gives back when a model is
+    dropped (object-pool `__new__`): the objects of the next model then have the very identities (`id()`) of
+    objects of a dropped one — what CPython does by chance with collected objects, made deterministic"""
+    free = []
+
+    def __init__(self, **kw):
+        for k, v in kw.items():
+            setattr(self, k, v)
+
+    def __new__(cls, *a, **kw):
+        return free.pop(0) if free else object.__new__(cls)
+
+    ns = {"__init__": __init__, "_c08_free": free}
+    if pooled:
+        ns["__new__"] = __new__
+    return type(name, (), ns)
+
+
+def recycle(models):
+    """give the instances of pooled user classes of dropped models back to their pools (creation order)"""
+    def go(o):
+        if isinstance(o, list):
+            for x in o:
+                go(x)
+            return
+        kids = [getattr(o, "elems", None)]
+        free = getattr(type(o), "_c08_free", None)
+        if free is not None and "__new__" in type(o).__dict__:
+            o.__dict__.clear()
+            free.append(o)
+        for k in kids:
+            if k:
+                go(k)
+
+    for m in models:
+        go(m)
+
+
+def provider_keys(style):
+    if style == "any":
+        return ["*.*"]
+    owners = {"Plus": [0, 1], "Star": [0], "Multi": [0], "Bare": [0, 1], "Alt": [0, 1], "Model": [2]}
+    keys = set()
+    for cls, attrs in owners.items():
+        for a in attrs:
+            keys.add({"exact": f"{cls}.{ATTRS[a]}", "attr": f"*.{ATTRS[a]}", "cls": f"{cls}.*"}[style])
+    return sorted(keys)
+
+
 class Prop(Check):
     ID = "C08"
     LEAN_MODULE = "TextxVerif.Props.C08"
-    THEOREMS = ["Resolve.C08_order", "Resolve.C08_targets", "Resolve.C08_prefix_sorted", "Resolve.C08_append_false"]
-    DRIVER = "Drivers/Resolve.lean"
+    THEOREMS = ["Resolve.C08_order", "Resolve.C08_targets", "Resolve.C08_prefix_sorted", "Resolve.C08_append_false",
+                "RefList.C08_keyed_order", "RefList.C08_keyed_positions", "RefList.C08_history_order",
+                "RefList.C08_shared_book_false", "RefList.C08_falsy_position_false"]
+    DRIVER = "Drivers/RefList.lean"
     QUICK_CASES = 500
     THOROUGH_CASES = 8000
-    RULE = ("1..3 reference lists (+=, *= with separator, repeated plain assignment, two list attributes per object) of "
-            "<=6 references each with a random postponement schedule (0..3 rounds per reference); non-trivial = some "
-            "reference is resolved after a textually later one of the same list")
-    MODELLED = ("hand-modelled: model.py resolve_one_step list branch (Resolve.insertByPos/listAfter); tie X: final list "
-                "vs model replay of the observed resolution sequence; schedules are arbitrary (history-dependent)")
+    PROCS_QUICK = 3
+    _frozen_pid = None
+    RULE = ("histories of 1..6 model loads with one metamodel (texts reloaded or new, models dropped+collected or kept, "
+            "loads that fail); per load 1..3 files with reference lists (+=, *= with separator, repeated plain assignment, "
+            "two list attributes per object in sequence or interleaved, root-object list, keyword-less list rule, lists in "
+            "containers) of <=6 references, a random postponement schedule (0..3 rounds per reference), random layout "
+            "(lists before/after/between the items, leading blank/comment/nothing incl. a reference at offset 0, token "
+            "gaps) and metamodel configuration (provider key style, user classes, tool support, memoization); "
+            "non-trivial = some reference is resolved after a textually later one of the same list")
+    MODELLED = ("hand-modelled: model.py resolve_one_step list branch at the level of _list_ref_positions / attribute lists "
+                "(RefList.resolve/run/history; fused form Resolve.insertByPos/listAfter); tie X: every list of every load "
+                "vs model replay of the observed resolution sequences; schedules are arbitrary (history-dependent); "
+                "not exhibited: a global model repository shared by the loads, references created by tools (no position)")
 
+    # ------------------------------------------------------------------ generator
     def gen(self, rng, n, tier):
         for _ in range(n):
-            nitems = rng.randint(1, 4)
+            yield self.gen_one(rng)
+
+    def gen_list(self, rng, kind, items, sched_w):
+        pick = lambda: rng.choice(items)  # noqa: E731
+        if kind == "multi":
+            refs = [[0, pick()] for _ in range(rng.randint(2, 3))]
+        elif kind == "star":
+            refs = [[0, pick()] for _ in range(rng.randint(0, 6))]
+        elif kind == "alt":
+            refs = [[rng.below(2), pick()] for _ in range(rng.randint(0, 7))]
+        else:  # plus, bare
+            refs = [[0, pick()] for _ in range(rng.randint(1, 6))]
+            if rng.chance(0.4):
+                refs += [[1, pick()] for _ in range(rng.randint(1, 4))]
+        return {"k": kind, "refs": refs, "sched": [rng.weighted(sched_w) for _ in refs]}
+
+    def gen_load(self, rng, mm, may_fail, bulk=False):
+        nfiles = 1 if bulk else rng.weighted([(1, 15), (2, 3), (3, 2)])
+        nitems = rng.randint(1, 4)
+        owner = [rng.below(nfiles) for _ in range(nitems)]
+        for fi in range(nfiles):  # no empty file (it would yield a str model)
+            if fi not in owner:
+                owner.append(fi)
+        items = list(range(len(owner)))
+        sched_w = rng.choice([[(0, 5), (1, 3), (2, 2), (3, 1)], [(0, 1), (1, 1)], [(0, 3), (1, 1), (2, 1), (3, 1)]])
+        files = []
+        for fi in range(nfiles):
+            imports = []
+            if fi + 1 < nfiles:
+                imports = [j for j in range(fi + 1, nfiles) if rng.chance(0.5)]
+            its = [{"k": "item", "n": k} for k in items if owner[k] == fi]
             lists = []
-            for li in range(rng.randint(1, 3)):
-                kind = rng.choice(["plus", "plus2", "star", "multi"])
-                if kind == "multi":
-                    k = rng.randint(2, 3)
-                elif kind == "star":
-                    k = rng.randint(0, 6)
+            for _ in range(rng.randint(8, 16) if bulk else rng.randint(1, 3) if fi == 0 else rng.randint(0, 2)):
+                kind = rng.weighted([("plus", 4), ("star", 2), ("multi", 1), ("bare", 2), ("alt", 2)])
+                lists.append(self.gen_list(rng, kind, items, sched_w))
+            if len(lists) >= 2 and rng.chance(0.2):
+                lists = [{"k": "box", "e": lists[:-1]}, lists[-1]] if rng.chance(0.5) else [{"k": "box", "e": lists}]
+            order = rng.weighted([("items-first", 4), ("lists-first", 3), ("mixed", 3)])
+            elems = its + lists if order == "items-first" else lists + its if order == "lists-first" else rng.shuffle(its + lists)
+            f = {"imports": imports, "elems": elems}
+            if mm["root"] != "none":
+                k = rng.randint(0, 5)
+                f["root"] = {"refs": [[2, rng.choice(items)] for _ in range(k)],
+                             "sched": [rng.weighted(sched_w) for _ in range(k)]}
+            files.append(f)
+        for fi in range(1, nfiles):  # every file is reachable from the main one
+            if not any(fi in files[j]["imports"] for j in range(fi)):
+                files[rng.below(fi)]["imports"].append(fi)
+                for f in files:
+                    f["imports"].sort()
+        load = {"drop": rng.chance(0.7), "lead": rng.weighted(list(zip(LEADS, [6, 1, 2, 2, 1, 1]))),
+                "gap": rng.weighted(list(zip(GAPS, [6, 3, 1, 1, 1, 1]))), "files": files}
+        if may_fail and rng.chance(0.1):
+            ls = [l for f in files for _, l in lists_of_file(f, mm) if l["refs"]]
+            if ls:
+                l = rng.choice(ls)
+                j = rng.below(len(l["refs"]))
+                if rng.chance(0.5):
+                    l["refs"][j][1] = -1
                 else:
-                    k = rng.randint(1, 6)
-                refs = [rng.below(nitems) for _ in range(k)]
-                more = [rng.below(nitems) for _ in range(rng.randint(1, 4))] if kind == "plus2" else []
-                sched = [rng.weighted([(0, 5), (1, 3), (2, 2), (3, 1)]) for _ in range(len(refs) + len(more))]
-                lists.append({"kind": kind, "refs": refs, "more": more, "sched": sched})
-            # a round in which nothing resolves ends the loop (C09): make the waits contiguous 0..m
-            vals = sorted({w for l in lists for w in l["sched"]})
-            rank = {w: i for i, w in enumerate(vals)}
-            for l in lists:
-                l["sched"] = [rank[w] for w in l["sched"]]
-            yield {"nitems": nitems, "lists": lists}
+                    l["sched"][j] = -1
+        rank_waits(load, mm)
+        return load
 
-    def render(self, case):
-        """text + for every reference its (list index, attr, index in attr, position)."""
-        text = "".join(f"item i{k}\n" for k in range(case["nitems"]))
-        meta = []
-        for li, l in enumerate(case["lists"]):
-            kind = l["kind"]
-            head = {"plus": "plus", "plus2": "plus", "star": "star", "multi": "multi"}[kind]
-            text += f"{head} L{li} :"
-            sep = "," if kind == "star" else ""
-            for j, t in enumerate(l["refs"]):
-                if j and sep:
-                    text += " ,"
-                text += " "
-                meta.append((li, "targets", j, len(text), t))
-                text += f"i{t}"
-            if l["more"]:
-                text += " &"
-                for j, t in enumerate(l["more"]):
-                    if j:
-                        text += " ,"
-                    text += " "
-                    meta.append((li, "more", j, len(text), t))
-                    text += f"i{t}"
-            text += " ;\n"
-        return text, meta
+    def reschedule(self, rng, load, mm):
+        """the same text once more, under another schedule"""
+        import copy
 
+        load = copy.deepcopy(load)
+        sched_w = rng.choice([[(0, 5), (1, 3), (2, 2), (3, 1)], [(0, 1), (1, 1)]])
+        for f in load["files"]:
+            for _, l in lists_of_file(f, mm):
+                for j, (a, t) in enumerate(l["refs"]):
+                    if t < 0:
+                        l["refs"][j][1] = 0
+                l["sched"] = [rng.weighted(sched_w) for _ in l["refs"]]
+        load["drop"] = rng.chance(0.7)
+        rank_waits(load, mm)
+        return load
+
+    def gen_one(self, rng):
+        mm = {"root": rng.weighted([("none", 5), ("head", 3), ("tail", 1)]),
+              "prov": rng.weighted([("any", 4), ("exact", 2), ("attr", 1), ("cls", 1)]),
+              "user": rng.subset(USER_ABLE, 0.5) if rng.chance(0.3) else [],
+              "tools": rng.chance(0.2), "memo": rng.chance(0.15)}
+        mm["pool"] = bool(mm["user"]) and rng.chance(0.6)
+        # state that outlives a load is typically keyed by object identity, and CPython hands the id() of a
+        # collected object out again: "bulk" histories reload models with many list-holding objects so that
+        # identities of dropped models do recur
+        bulk = rng.chance(0.12)
+        nloads = rng.randint(3, 6) if bulk else rng.weighted([(1, 4), (2, 3), (3, 2), (4, 1), (5, 1), (6, 1)])
+        loads = []
+        for li in range(nloads):
+            if loads and rng.chance(0.7 if bulk else 0.5):
+                loads.append(self.reschedule(rng, rng.choice(loads), mm))
+            else:
+                loads.append(self.gen_load(rng, mm, may_fail=li + 1 < nloads, bulk=bulk))
+            if bulk and li + 1 < nloads:
+                loads[-1]["drop"] = True
+        return {"v": 2, "mm": mm, "loads": loads}
+
+    # ------------------------------------------------------------------ implementation
     def impl(self, case):
         use_repo()
-        from textx import metamodel_from_str
+        from textx import get_model, metamodel_from_str
         from textx.exceptions import TextXError
         from textx.scoping import Postponed
+        from textx.scoping import providers as sp
 
-        text, meta = self.render(case)
-        bypos = {}
-        n_per_list = {}
-        for (li, attr, j, pos, t) in meta:
-            base = len(case["lists"][li]["refs"]) if attr == "more" else 0
-            bypos[pos] = (li, attr, j, case["lists"][li]["sched"][base + j], t)
-        mm = metamodel_from_str(GRAMMAR)
-        calls = {}
-        total = [0]
-        log = []
-        limit = 10 * (len(meta) + 2)
+        # the loads below call gc.collect(): keep what exists in this (worker) process already — the runner's
+        # case list above all — out of these collections, their cost must not grow with the number of cases
+        if Prop._frozen_pid != os.getpid():
+            gc.collect()
+            gc.freeze()
+            Prop._frozen_pid = os.getpid()
+        case = norm(case)
+        mmo = case["mm"]
+        classes = [make_user_class(n, bool(mmo.get("pool"))) for n in mmo["user"]]
+        mm = metamodel_from_str(grammar(mmo), classes=classes, textx_tools_support=bool(mmo.get("tools")),
+                                memoization=bool(mmo.get("memo")))
+        cur = {}
+
+        def file_index(m):
+            fn = getattr(m, "_tx_filename", None)
+            if not fn:
+                return 0
+            return int(re.fullmatch(r"f(\d+)\.m", os.path.basename(fn)).group(1))
+
+        def all_models(m):
+            ms = [m]
+            rep = getattr(m, "_tx_model_repository", None)
+            if rep is not None:
+                ms += [x for x in rep.all_models if x is not m]
+            return ms
+
+        def items_of(m):
+            return [e for e in m.elems if type(e).__name__ == "Item"]
 
         def provider(obj, attr, obj_ref):
-            total[0] += 1
-            if total[0] > limit:
+            cur["total"] += 1
+            if cur["total"] > cur["limit"]:
                 raise NonTermination("provider called too often")
-            li, a, j, wait, t = bypos[obj_ref.position]
-            c = calls.get(obj_ref.position, 0)
-            calls[obj_ref.position] = c + 1
-            if c < wait:
+            if cur.get("none_for") == id(obj_ref):
+                return None  # ImportURI asks again on behalf of the imported models
+            m = get_model(obj)
+            fi = file_index(m)
+            rec = cur["table"].get((fi, obj_ref.position))
+            if rec is None or ATTRS[rec["attr"]] != attr.name:
+                raise UnknownPosition(f"file {fi}: reference {obj_ref.obj_name!r} of {attr.name} reported at position "
+                                      f"{obj_ref.position}, where no such reference is written")
+            cur["ids"].add(id(obj))
+            c = cur["calls"].get((fi, rec["pos"]), 0)
+            cur["calls"][(fi, rec["pos"])] = c + 1
+            if rec["wait"] < 0 or c < rec["wait"]:
                 return Postponed()
-            log.append([li, a, j, obj_ref.position, t])
-            from textx import get_model
-
-            return next(i for i in get_model(obj).items if i.name == obj_ref.obj_name)
-
-        mm.register_scope_providers({"*.*": provider})
-        try:
-            model = mm.model_from_str(text)
-        except NonTermination as e:
-            return {"outcome": "nonterm", "msg": str(e), "log": log}
-        except TextXError as e:
-            return {"outcome": "error", "type": type(e).__name__, "msg": str(e)[:200], "log": log}
-        except Exception as e:
-            return {"outcome": "other", "type": type(e).__name__, "msg": str(e)[:200], "log": log}
-        out = {"outcome": "ok", "log": log, "lists": []}
-        for l in model.lists:
-            d = {}
-            for a in ("targets", "more"):
-                v = getattr(l, a, None)
-                if isinstance(v, list):
-                    d[a] = [int(x.name[1:]) for x in v]
-                elif v is not None:
-                    d[a] = "scalar:" + str(getattr(v, "name", v))
-            out["lists"].append(d)
-        return out
-
-    # one Lean request per case: all (list, attr) sequences concatenated with disjoint position ranges
-    def model_req(self, case, obs):
-        if obs["outcome"] != "ok":
+            for x in all_models(m):
+                for it in items_of(x):
+                    if it.name == obj_ref.obj_name:
+                        cur["log"].append([fi, rec["obj"], rec["attr"], rec["j"], rec["pos"], rec["tgt"]])
+                        return it
+            cur["none_for"] = id(obj_ref)
             return None
-        seq = []
-        for k, (li, a, j, pos, t) in enumerate(obs["log"]):
-            group = li * 2 + (1 if a == "more" else 0)
-            seq.append([k, group * 100000 + pos, group * 1000 + t])
-        return {"op": "list", "seq": seq}
+
+        multi = any(len(l["files"]) > 1 for l in case["loads"])
+        prov = sp.ImportURI(provider) if multi else provider
+        mm.register_scope_providers({k: prov for k in provider_keys(mmo["prov"])})
+
+        out = []
+        keep = []
+        dropped_ids = set()
+        for load in case["loads"]:
+            rendered = [render_file(fi, f, load, mmo) for fi, f in enumerate(load["files"])]
+            table = {(r["file"], r["pos"]): r for _, refs in rendered for r in refs}
+            cur.clear()
+            cur.update(table=table, calls={}, log=[], total=0, ids=set(), limit=10 * (len(table) + 2))
+            o = {}
+            model = None
+            tmp = None
+            try:
+                if len(rendered) == 1:
+                    model = mm.model_from_str(rendered[0][0])
+                else:
+                    tmp = tempfile.mkdtemp(prefix="c08-")
+                    for fi, (text, _) in enumerate(rendered):
+                        with open(os.path.join(tmp, f"f{fi}.m"), "w", encoding="utf-8") as fh:
+                            fh.write(text)
+                    model = mm.model_from_file(os.path.join(tmp, "f0.m"))
+                o["outcome"] = "ok"
+            except NonTermination as e:
+                o.update(outcome="nonterm", msg=str(e))
+            except UnknownPosition as e:
+                o.update(outcome="badpos", msg=str(e))
+            except TextXError as e:
+                o.update(outcome="error", type=type(e).__name__, msg=str(e)[:200])
+            except Exception as e:
+                o.update(outcome="other", type=type(e).__name__, msg=str(e)[:200])
+            finally:
+                if tmp:
+                    shutil.rmtree(tmp, ignore_errors=True)
+            o["log"] = cur["log"]
+            o["reuse"] = len(cur["ids"] & dropped_ids)
+            if model is not None:
+                try:
+                    o["lists"] = self.observe(model, load, mmo, all_models, file_index, items_of)
+                except Exception as e:
+                    o.update(outcome="shape", msg=f"{type(e).__name__}: {e}"[:200])
+            out.append(o)
+            if load.get("drop"):
+                dropped_ids |= cur["ids"]
+                if model is not None and mmo.get("pool"):
+                    recycle(all_models(model))
+                model = None
+                gc.collect()
+            else:
+                keep.append(model)
+                model = None
+        return {"loads": out}
+
+    def observe(self, model, load, mmo, all_models, file_index, items_of):
+        """{"file:obj:attr": [K..]} for every list attribute (targets told by identity)"""
+        ms = {file_index(m): m for m in all_models(model)}
+        ident = {}
+        for m in ms.values():
+            for it in items_of(m):
+                ident[id(it)] = int(it.name[1:])
+
+        def val(o, a):
+            v = getattr(o, ATTRS[a], None)
+            if not isinstance(v, list):
+                return "not-a-list:" + type(v).__name__
+            return [ident.get(id(x), "?" + str(getattr(x, "name", type(x).__name__))) for x in v]
+
+        lists = {}
+        for fi, f in enumerate(load["files"]):
+            m = ms[fi]
+            objs = []
+
+            def go(mes, ces):
+                if len(mes) != len(ces):
+                    raise ValueError(f"{len(mes)} objects for {len(ces)} elements")
+                for o, e in zip(mes, ces):
+                    if type(o).__name__ != CLASS_OF[e["k"]]:
+                        raise ValueError(f"object {type(o).__name__} for element {e['k']}")
+                    if e["k"] == "box":
+                        go(o.elems, e["e"])
+                    elif e["k"] != "item":
+                        objs.append(o)
+
+            go(m.elems, f["elems"])
+            byk = {0: m}
+            for n, o in enumerate(objs):
+                byk[n + 1] = o
+            for (key, a) in expected_lists(f, mmo):
+                lists[f"{fi}:{key}:{a}"] = val(byk[key], a)
+        return lists
+
+    # ------------------------------------------------------------------ model
+    def model_req(self, case, obs):
+        """one resolver run per (successful load, file): the references in the observed resolution order"""
+        case = norm(case)
+        runs = []
+        for load, o in zip(case["loads"], obs["loads"]):
+            if o["outcome"] != "ok":
+                continue
+            for fi in range(len(load["files"])):
+                runs.append([[obj, a, pos, t] for (f, obj, a, j, pos, t) in o["log"] if f == fi])
+        return {"op": "history", "runs": runs}
 
     def compare(self, case, obs, out):
         if "err" in out:
             return f"model rejected request {out}"
-        exp = {}
-        for v in out["list"]:
-            exp.setdefault(v // 1000, []).append(v % 1000)
-        for li, d in enumerate(obs["lists"]):
-            for a in ("targets", "more"):
-                got = d.get(a, [])
-                want = exp.get(li * 2 + (1 if a == "more" else 0), [])
-                if isinstance(got, str) or got != want:
-                    return f"list {li}.{a}: implementation {got}, model replay of the resolution sequence {want}"
+        case = norm(case)
+        runs = iter(out["runs"])
+        for li, (load, o) in enumerate(zip(case["loads"], obs["loads"])):
+            if o["outcome"] != "ok":
+                continue
+            for fi in range(len(load["files"])):
+                want = {f"{fi}:{obj}:{a}": v for obj, a, v in next(runs)}
+                for key, got in sorted(o["lists"].items()):
+                    if key.startswith(f"{fi}:") and got != want.get(key, []):
+                        return (f"load {li} list {key}: implementation {got}, model replay of the resolution "
+                                f"sequence {want.get(key, [])}")
         return None
 
     def oracle(self, case, obs):
-        if obs["outcome"] != "ok":
-            return f"loading failed: {obs['outcome']} {obs.get('type')} {obs.get('msg')}"
-        for li, l in enumerate(case["lists"]):
-            d = obs["lists"][li]
-            if d.get("targets") != l["refs"]:
-                return f"list {li}.targets = {d.get('targets')} but the references are written in the order {l['refs']}"
-            if l["more"] and d.get("more") != l["more"]:
-                return f"list {li}.more = {d.get('more')} but the references are written in the order {l['more']}"
+        case = norm(case)
+        for li, (load, o) in enumerate(zip(case["loads"], obs["loads"])):
+            if load_fails(load, case["mm"]):
+                continue  # a reference that never resolves: the load has no reference lists to look at
+            if o["outcome"] != "ok":
+                return f"load {li} failed: {o['outcome']} {o.get('type')} {o.get('msg')}"
+            for fi, f in enumerate(load["files"]):
+                for (key, a), want in sorted(expected_lists(f, case["mm"]).items()):
+                    got = o["lists"].get(f"{fi}:{key}:{a}")
+                    if got != want:
+                        return (f"load {li} file {fi} object {key}: {ATTRS[a]} = {got} but the references are "
+                                f"written in the order {want}")
         return None
 
     def nontrivial(self, case, obs):
-        last = {}
-        for (li, a, j, pos, t) in obs.get("log", []):
-            if last.get((li, a), -1) > j:
-                return True
-            last[(li, a)] = max(last.get((li, a), -1), j)
+        for o in obs.get("loads", []):
+            last = {}
+            for (fi, obj, a, j, pos, t) in o.get("log", []):
+                if last.get((fi, obj, a), -1) > j:
+                    return True
+                last[(fi, obj, a)] = max(last.get((fi, obj, a), -1), j)
         return False
 
+    def extra_evidence(self, cases, obs, model_outs):
+        ev = {"histories": 0, "loads": 0, "loads_after_a_dropped_one": 0, "loads_reusing_object_ids": 0,
+              "multi_file_loads": 0, "failing_loads": 0, "references_at_offset_0": 0,
+              "offset_0_reference_resolved_late": 0, "user_class_cases": 0,
+              "pooled_identity_cases": 0}
+        for c, o in zip(cases, obs):
+            if not isinstance(o, dict) or "loads" not in o:
+                continue
+            c = norm(c)
+            ev["histories"] += len(c["loads"]) > 1
+            ev["user_class_cases"] += bool(c["mm"]["user"])
+            ev["pooled_identity_cases"] += bool(c["mm"].get("pool"))
+            dropped = False
+            for load, lo in zip(c["loads"], o["loads"]):
+                ev["loads"] += 1
+                ev["loads_after_a_dropped_one"] += dropped
+                ev["loads_reusing_object_ids"] += lo.get("reuse", 0) > 0
+                ev["multi_file_loads"] += len(load["files"]) > 1
+                ev["failing_loads"] += lo["outcome"] != "ok"
+                dropped = dropped or bool(load.get("drop"))
+                log = lo.get("log", [])
+                for n, (fi, obj, a, j, pos, t) in enumerate(log):
+                    if pos == 0:
+                        ev["references_at_offset_0"] += 1
+                        ev["offset_0_reference_resolved_late"] += any(
+                            (x[0], x[1], x[2]) == (fi, obj, a) for x in log[:n])
+        return {"explored": ev}
+
+    # ------------------------------------------------------------------ shrinking
     def shrink(self, case):
+        import copy
+
+        case = norm(case)
         for c in self._shrink(case):
-            vals = sorted({w for l in c["lists"] for w in l["sched"]})
-            rank = {w: i for i, w in enumerate(vals)}
-            yield {"nitems": c["nitems"], "lists": [dict(l, sched=[rank[w] for w in l["sched"]]) for l in c["lists"]]}
+            c = copy.deepcopy(c)
+            for load in c["loads"]:
+                rank_waits(load, c["mm"])
+            yield c
 
     def _shrink(self, case):
-        for li in range(len(case["lists"])):
-            if len(case["lists"]) > 1:
-                yield {"nitems": case["nitems"], "lists": case["lists"][:li] + case["lists"][li + 1:]}
-        for li, l in enumerate(case["lists"]):
-            if l["kind"] in ("plus", "plus2", "star") and len(l["refs"]) > 1:
+        import copy
+
+        loads = case["loads"]
+        for li in range(len(loads)):
+            if len(loads) > 1:
+                yield dict(case, loads=loads[:li] + loads[li + 1:])
+        dflt = {"prov": "any", "user": [], "pool": False, "tools": False, "memo": False}
+        for k, v in dflt.items():
+            if case["mm"].get(k) != v:
+                yield dict(case, mm=dict(case["mm"], **{k: v}))
+        for li, load in enumerate(loads):
+            for k, v in (("gap", " "), ("drop", False)):
+                if load.get(k) != v:
+                    yield dict(case, loads=loads[:li] + [dict(load, **{k: v})] + loads[li + 1:])
+
+            def lists(ld):
+                out = []
+
+                def go(es):
+                    for e in es:
+                        if e["k"] == "box":
+                            go(e["e"])
+                        elif e["k"] != "item":
+                            out.append(e)
+
+                for f in ld["files"]:
+                    if f.get("root"):
+                        out.append(f["root"])
+                    go(f["elems"])
+                return out
+
+            # remove a whole list element / unwrap nothing: only top-level elements of a file
+            for fi, f in enumerate(load["files"]):
+                for ei, e in enumerate(f["elems"]):
+                    if e["k"] != "item":
+                        ld = copy.deepcopy(load)
+                        del ld["files"][fi]["elems"][ei]
+                        yield dict(case, loads=loads[:li] + [ld] + loads[li + 1:])
+            # remove one reference
+            for n, l in enumerate(lists(load)):
                 for j in range(len(l["refs"])):
-                    l2 = dict(l, refs=l["refs"][:j] + l["refs"][j + 1:], sched=l["sched"][:j] + l["sched"][j + 1:])
-                    yield {"nitems": case["nitems"], "lists": case["lists"][:li] + [l2] + case["lists"][li + 1:]}
+                    ld = copy.deepcopy(load)
+                    l2 = lists(ld)[n]
+                    del l2["refs"][j]
+                    del l2["sched"][j]
+                    if "k" not in l2 or valid_elem(l2):
+                        yield dict(case, loads=loads[:li] + [ld] + loads[li + 1:])
 
     def extra_search(self, rng, tier, broken):
         return list(self.gen(rng, 2000, tier))
